@@ -1,0 +1,139 @@
+// Copyright 2020-2025 Buf Technologies, Inc.
+//
+// Licensed under the Apache License, Version 2.0 (the "License");
+// you may not use this file except in compliance with the License.
+// You may obtain a copy of the License at
+//
+//      http://www.apache.org/licenses/LICENSE-2.0
+//
+// Unless required by applicable law or agreed to in writing, software
+// distributed under the License is distributed on an "AS IS" BASIS,
+// WITHOUT WARRANTIES OR CONDITIONS OF ANY KIND, either express or implied.
+// See the License for the specific language governing permissions and
+// limitations under the License.
+
+//go:build verif
+
+package bufmodule
+
+// Contracts for the gocv verifier (ca-r4b): module digests, file types, documentation file choice. Comment-only.
+//
+// The name tables of digest.go and file_type.go. Clauses that depend on them carry rb_modTables(0) / rb_ftTables(0).
+//@ table rb_modDigestTypeToString {C08} of digestTypeToString
+//@   ensures exactly-b4-b5: (forall t DigestType :: t in digestTypeToString ==> t == DigestTypeB4 || t == DigestTypeB5) && DigestTypeB4 in digestTypeToString && digestTypeToString[DigestTypeB4] == "shake256" && DigestTypeB5 in digestTypeToString && digestTypeToString[DigestTypeB5] == "b5"
+//@ table rb_modStringToDigestType {C08} of stringToDigestType
+//@   ensures exactly-b4-b5: (forall k string :: k in stringToDigestType ==> k == "shake256" || k == "b5") && "shake256" in stringToDigestType && stringToDigestType["shake256"] == DigestTypeB4 && "b5" in stringToDigestType && stringToDigestType["b5"] == DigestTypeB5
+//@ table rb_fileTypeToString {C08} of fileTypeToString
+//@   ensures exactly-three: (forall t FileType :: t in fileTypeToString ==> t == FileTypeProto || t == FileTypeDoc || t == FileTypeLicense) && FileTypeProto in fileTypeToString && fileTypeToString[FileTypeProto] == "proto" && FileTypeDoc in fileTypeToString && fileTypeToString[FileTypeDoc] == "doc" && FileTypeLicense in fileTypeToString && fileTypeToString[FileTypeLicense] == "license"
+//@ table rb_stringToFileType {C08} of stringToFileType
+//@   ensures exactly-three: (forall k string :: k in stringToFileType ==> k == "proto" || k == "doc" || k == "license") && "proto" in stringToFileType && stringToFileType["proto"] == FileTypeProto && "doc" in stringToFileType && stringToFileType["doc"] == FileTypeDoc && "license" in stringToFileType && stringToFileType["license"] == FileTypeLicense
+//
+// ParseDigestType: exactly "shake256" (b4, for backwards compatibility) and "b5" are module digest types.
+//@ func ParseDigestType(s) (r, err)
+//@   property C08
+//@   ensures known: s in stringToDigestType ==> err == nil && r == stringToDigestType[s]
+//@   ensures unknown-rejected: !(s in stringToDigestType) ==> err != nil && r == 0
+//@   ensures round-trip: rb_modTables(0) ==> (forall t DigestType :: t in digestTypeToString && s == t.String() ==> err == nil && r == t)
+//@   ensures only-b4-b5: rb_modTables(0) ==> ((err == nil) <==> (s == "shake256" || s == "b5")) && (s == "shake256" ==> r == DigestTypeB4) && (s == "b5" ==> r == DigestTypeB5)
+//
+// FileType.String / ParseFileType: "proto", "doc", "license"; parsing reverses printing.
+//@ pure func (c FileType) String() (r)
+//@   property C08
+//@   ensures known: c in fileTypeToString ==> r == fileTypeToString[c]
+//@   ensures unknown-is-decimal: !(c in fileTypeToString) ==> r == decimal(c)
+//@ func ParseFileType(s) (r, err)
+//@   property C08
+//@   ensures known: s in stringToFileType ==> err == nil && r == stringToFileType[s]
+//@   ensures unknown-rejected: !(s in stringToFileType) ==> err != nil && r == 0
+//@   ensures round-trip: rb_ftTables(0) ==> (forall t FileType :: t in fileTypeToString && s == t.String() ==> err == nil && r == t)
+//@   ensures only-the-three: rb_ftTables(0) ==> ((err == nil) <==> (s == "proto" || s == "doc" || s == "license"))
+//
+// IsValidModuleFilePath: exactly the .proto files, LICENSE and the documentation candidates (at the root) are module files.
+//@ func IsValidModuleFilePath(filePath) (r)
+//@   property C08
+//@   ensures proto-and-license: normalpath.Ext(filePath) == ".proto" || filePath == "LICENSE" ==> r
+//@   ensures nothing-else: r ==> normalpath.Ext(filePath) == ".proto" || filePath == "LICENSE" || (filePath in docFilePathMap)
+//
+// A module digest is "<type>:<lowercase hex of the cas digest value>"; newDigest builds exactly that.
+//@ func newDigest(digestType, bufcasDigest) (r)
+//@   property C08
+//@   ensures fields: r != nil && r.digestType == digestType && r.bufcasDigest == bufcasDigest
+//@   ensures string-form: r.stringValue == digestType.String() + ":" + hex.EncodeToString(bufcasDigest.Value())
+//@ pure func (d *digest) Type() (r)
+//@   property C08
+//@   ensures r == d.digestType
+//@ pure func (d *digest) Value() (r)
+//@   property C08
+//@   ensures r == d.bufcasDigest.Value()
+//@ pure func (d *digest) String() (r)
+//@   property C08
+//@   ensures r == d.stringValue
+//
+// (getDocFilePathForModuleReadBucket: "first existing candidate, in order" is under contract in zz_verif_contracts_r4j.go - not redeclared here)
+//
+// getB4Digest: the manifest that is hashed holds one node per walked module file (own path, digest of its content) and
+// then one node per PRESENT v1 side file, buf.yaml before buf.lock, each under the side file's own name; an absent side
+// file contributes nothing; any failing hash / invalid or duplicate path is reported; the result is a b4 digest.
+//@ trusted pure interface ObjectData
+//@ func getB4Digest(ctx, bucketWithStorageMatcherApplied, v1BufYAMLObjectData, v1BufLockObjectData) (r, err)
+//@   property C08
+//@   modifies heap, ghost.fail, ghost.wfail, ghost.sinkPaths, ghost.sinkBuckets, ghost.lastPutOptions
+//@   ensures b4-digest-or-error: (err == nil) <==> (r != nil)
+//@   ensures is-b4: err == nil ==> cast(*digest, r).digestType == DigestTypeB4
+//@   closure 0 ensures one-node-per-object: err == nil ==> len(fileNodes) == old(len(fileNodes)) + 1 && cast(*bufcas.fileNode, fileNodes[len(fileNodes) - 1]).path == readObject.Path() && cast(*bufcas.fileNode, fileNodes[len(fileNodes) - 1]).digest != nil
+//@   closure 0 ensures failure-adds-nothing: err != nil ==> fileNodes == old(fileNodes)
+//@   closure 0 ensures earlier-nodes-kept: forall j int :: 0 <= j && j < old(len(fileNodes)) ==> fileNodes[j] == old(fileNodes)[j]
+//@   loop 0 invariant len(fileNodes) == $entry(len(fileNodes)) + ite($i >= 1 && v1BufYAMLObjectData != nil, 1, 0) + ite($i >= 2 && v1BufLockObjectData != nil, 1, 0)
+//@   loop 0 invariant forall j int :: 0 <= j && j < $entry(len(fileNodes)) ==> fileNodes[j] == $entry(fileNodes)[j]
+//@   loop 0 invariant $i >= 2 && v1BufLockObjectData != nil ==> cast(*bufcas.fileNode, fileNodes[len(fileNodes) - 1]).path == v1BufLockObjectData.Name()
+//@   loop 0 invariant $i >= 1 && v1BufYAMLObjectData != nil && !($i >= 2 && v1BufLockObjectData != nil) ==> cast(*bufcas.fileNode, fileNodes[len(fileNodes) - 1]).path == v1BufYAMLObjectData.Name()
+//@   assert before "manifest, err := bufcas.NewManifest(fileNodes)" lock-file-node-last: v1BufLockObjectData != nil ==> len(fileNodes) >= 1 && cast(*bufcas.fileNode, fileNodes[len(fileNodes) - 1]).path == v1BufLockObjectData.Name()
+//@   assert before "manifest, err := bufcas.NewManifest(fileNodes)" yaml-file-node-last-without-lock: v1BufLockObjectData == nil && v1BufYAMLObjectData != nil ==> len(fileNodes) >= 1 && cast(*bufcas.fileNode, fileNodes[len(fileNodes) - 1]).path == v1BufYAMLObjectData.Name()
+//@   assert before "manifest, err := bufcas.NewManifest(fileNodes)" yaml-then-lock-both-present: v1BufLockObjectData != nil && v1BufYAMLObjectData != nil ==> len(fileNodes) >= 2
+//
+// getB5DigestForBucketAndDepModuleKeys: the dependency digests fed into the b5 construction are exactly the digests
+// of the given module keys, one per key, in key order (getB5DigestForBucketAndDepDigests then demands that every one
+// is b5 and sorts their strings); a key whose digest cannot be read is an error.
+//@ func getB5DigestForBucketAndDepModuleKeys(ctx, bucketWithStorageMatcherApplied, depModuleKeys) (r, err)
+//@   property C08 C02
+//@   modifies heap, ghost.fail, ghost.wfail, ghost.sinkPaths, ghost.sinkBuckets, ghost.lastPutOptions
+//@   closure 0 ensures digest-of-the-key: r == first(moduleKey.Digest()) && err == second(moduleKey.Digest())
+//@   ensures unreadable-key-digest-reported: (exists i int :: 0 <= i && i < len(depModuleKeys) && second(depModuleKeys[i].Digest()) != nil) ==> err != nil
+//@   assert before "return getB5DigestForBucketAndDepDigests(" one-digest-per-key-in-order: len(depDigests) == len(depModuleKeys) && (forall i int :: 0 <= i && i < len(depModuleKeys) ==> depDigests[i] == first(depModuleKeys[i].Digest()) && second(depModuleKeys[i].Digest()) == nil)
+//
+// getB5DigestForBucketAndModuleDeps: the same over module dependencies: each contributes its B5 digest (asked for with
+// DigestTypeB5 and nothing else), one per dependency, in order; a dependency whose digest fails is an error.
+//@ trusted pure func (ModuleDep) Digest(digestType) (r, err)
+//@ func getB5DigestForBucketAndModuleDeps(ctx, bucketWithStorageMatcherApplied, moduleDeps) (r, err)
+//@   property C08 C02
+//@   modifies heap, ghost.fail, ghost.wfail, ghost.sinkPaths, ghost.sinkBuckets, ghost.lastPutOptions
+//@   closure 0 ensures b5-digest-of-the-dep: r == first(moduleDep.Digest(DigestTypeB5)) && err == second(moduleDep.Digest(DigestTypeB5))
+//@   ensures failing-dep-digest-reported: (exists i int :: 0 <= i && i < len(moduleDeps) && second(moduleDeps[i].Digest(DigestTypeB5)) != nil) ==> err != nil
+//@   assert before "return getB5DigestForBucketAndDepDigests(" one-b5-digest-per-dep-in-order: len(depDigests) == len(moduleDeps) && (forall i int :: 0 <= i && i < len(moduleDeps) ==> depDigests[i] == first(moduleDeps[i].Digest(DigestTypeB5)) && second(moduleDeps[i].Digest(DigestTypeB5)) == nil)
+//
+// NewDigest (verified against its body; was assumed): a module digest is created exactly for the types b4 / b5 over a
+// shake256 cas digest, and carries exactly that type and that cas digest.
+//@ func NewDigest(digestType, bufcasDigest) (r, err)
+//@   property C08
+//@   ensures accepted-iff-known-type-over-shake256: (err == nil) <==> ((digestType == DigestTypeB4 || digestType == DigestTypeB5) && bufcasDigest.Type() == bufcas.DigestTypeShake256)
+//@   ensures carries-type-and-cas-digest: err == nil ==> r != nil && cast(*digest, r).digestType == digestType && cast(*digest, r).bufcasDigest == bufcasDigest && cast(*digest, r).stringValue == digestType.String() + ":" + hex.EncodeToString(bufcasDigest.Value())
+//@   ensures error-yields-nil: err != nil ==> r == nil
+//
+//
+// ParseDigest (verified against its body; was assumed in /verif/specs/C16_files.spec) reverses Digest.String():
+// "shake256:" / "b5:" followed by 128 hex characters and nothing else is accepted; the parsed digest has the named
+// type, the decoded value, and prints back to the same (lowercase) text; it stays a pure function of its argument.
+//@ pure func ParseDigest(s) (r, err)
+//@   property C08 C16
+//@   use rb_lower-is-hex
+//@   ensures empty-rejected: s == "" ==> err != nil
+//@   ensures no-colon-rejected: !contains(s, ":") ==> err != nil
+//@   ensures error-yields-nil: err != nil ==> r == nil
+//@   ensures success-yields-digest: err == nil ==> r != nil
+//@   ensures only-type-colon-hex-accepted: rb_modTables(0) && err == nil ==> (hasPrefix(s, "shake256:") && len(s) == 137 && rb_anyHex(substr(s, 9, 128))) || (hasPrefix(s, "b5:") && len(s) == 131 && rb_anyHex(substr(s, 3, 128)))
+//@   ensures b5-round-trip: rb_modTables(0) ==> (forall v []byte :: len(v) == 64 && !isNilSlice(v) && s == "b5:" + hex.EncodeToString(v) ==> err == nil && r != nil && cast(*digest, r).digestType == DigestTypeB5 && cast(*bufcas.digest, cast(*digest, r).bufcasDigest).value == v && cast(*digest, r).stringValue == s)
+//@   ensures b4-round-trip: rb_modTables(0) ==> (forall v []byte :: len(v) == 64 && !isNilSlice(v) && s == "shake256:" + hex.EncodeToString(v) ==> err == nil && r != nil && cast(*digest, r).digestType == DigestTypeB4 && cast(*bufcas.digest, cast(*digest, r).bufcasDigest).value == v && cast(*digest, r).stringValue == s)
+//@   assert before "digestType, err := ParseDigestType(digestTypeString)" cut-at-first-colon: s == digestTypeString + ":" + hexValue && !contains(digestTypeString, ":")
+//@   assert before "digestType, err := ParseDigestType(digestTypeString)" cut-b5: hasPrefix(s, "b5:") ==> digestTypeString == "b5" && hexValue == substr(s, 3, len(s) - 3)
+//@   assert before "digestType, err := ParseDigestType(digestTypeString)" cut-b4: hasPrefix(s, "shake256:") ==> digestTypeString == "shake256" && hexValue == substr(s, 9, len(s) - 9)
+//@   assert before "value, err := hex.DecodeString(hexValue)" hex-part-of-printed: forall v []byte :: s == "b5:" + hex.EncodeToString(v) || s == "shake256:" + hex.EncodeToString(v) ==> hexValue == hex.EncodeToString(v)
